@@ -30,7 +30,8 @@ Const(ty, v, h, s) == [t |-> "c", ty |-> ty, v |-> v, h |-> h, s |-> s]
 IsMark(x) == x.t = "mark"
 
 S0 == [stack |-> <<>>, memo |-> <<>>, heap |-> <<>>, ev |-> <<>>,
-       st |-> "run", why |-> "", res |-> Mark]
+       st |-> "run", why |-> "", res |-> Mark,
+       extc |-> {}]          \* extension codes already resolved in this run (the machine caches them: one find_class per code)
 
 Err(s, why) == [s EXCEPT !.st = "err", !.why = why]
 
@@ -213,7 +214,10 @@ SameEv(x, y) ==
 KwOK(h, x) == IsHeap(h, x, "dict") /\ \A i \in DOMAIN h[x.id].e : LET k == h[x.id].e[i][1] IN k.t = "c" /\ k.ty = "str"
 KwOf(h, x) == [i \in DOMAIN h[x.id].e |-> <<h[x.id].e[i][1].s, h[x.id].e[i][2]>>]
 
-Unsupported == {"EXT1", "EXT2", "EXT4", "NEXT_BUFFER", "READONLY_BUFFER"}
+Unsupported == {"NEXT_BUFFER", "READONLY_BUFFER"}
+\* the extension registry of the process (copyreg.add_extension): EXT1 / EXT2 / EXT4 carry a code that the machine resolves
+\* to a global through find_class - an import like any other.  The harness registers exactly this entry.
+ExtRegistry == [c \in {64} |-> <<"verif_sink", "ext_target">>]
 
 \* SETITEMS on a stand-in object: obj[k] = v for each pair in order, each observing the pairs set before it
 RECURSIVE SetItemsOnStub(_, _, _, _)
@@ -340,6 +344,10 @@ Eff(op, s) ==
                                     !.stack = Append(stk, Ref(nid))]
     [] op.o = "STOP"  -> IF fr >= 1 THEN [s EXCEPT !.st = "stop", !.res = top, !.stack = SubSeq(stk, 1, n - 1)]
                          ELSE Err(s, "vm")
+    [] op.o = "EXT" -> IF op.a \notin DOMAIN ExtRegistry THEN Err(s, "vm")
+                       ELSE LET g == ExtRegistry[op.a] IN
+                            [s EXCEPT !.ev = IF op.a \in s.extc THEN @ ELSE Append(@, EvImport(g[1], g[2])),
+                                      !.extc = @ \cup {op.a}, !.stack = Append(stk, G(g[1], g[2]))]
     [] op.o \in Unsupported -> Err(s, "unsupported")
     [] OTHER -> Err(s, "unknown-opcode")
 
